@@ -191,13 +191,18 @@ CHECKS = {
              "return/throw nothing, identifier constants exist; IsStruct and the Go wire-type classification cannot hit a nil dereference or "
              "unbounded recursion on validated programs; every identifier-casing helper returns on every grammar identifier; -gen parsing is total "
              "and rejects unknown options. Refutation theorems record what was false of the pinned code (F10, F11, F15; dangling/circular extends, "
-             "throws of a non-exception, duplicate names - all repaired) and what is still false (constant values never checked against their type: "
-             "K13; include cycles detected by bare file name: K14; names of an include's include: K1-K3, K9), with witnesses replayed on the real "
+             "throws of a non-exception, duplicate names - all repaired) and what is still false (names of an include's include: K1-K3, K9-K11; circular constant "
+             "references accepted: K15). After validation every constant value and every default value (fields, arguments, declared exceptions) "
+             "conforms to its declared type (inductive predicate conforms: typedefs followed in the declaring file, literal kinds with integer "
+             "ranges, containers, struct literals by field name, enums by declared number or value name, references to constants of the same "
+             "kind; checker proved sound and total with the stated fuel); include cycles are detected by cleaned path and a different file of "
+             "a name on the include chain gets a 'Duplicate file name' diagnostic, never 'Circular include' (theorem for all file systems "
+             "and chains); with witnesses replayed on the real "
              "compiler. Well-formedness of the eight generators' output and the diagnostic behaviour of the binary on invalid/mutated/arbitrary "
              "text are explored on seeded programs, not proved.",
         note="Model tied to the code by correspondence every run: helpers reached through compiler/**/verif_c11.go; every real Frugal.validate call and "
-             "every ParseFrugal result replayed on decoded parser-produced trees (decoder re-encoded and compared), diagnostics compared byte for byte; 75 "
-             "named mutations (valid- and invalid-by-construction) + text mutations; independent Python re-check of the soundness facts on every accepted "
+             "every ParseFrugal result replayed on decoded parser-produced trees (decoder re-encoded and compared), diagnostics compared byte for byte; 167 "
+             "named mutations (15 valid-, 152 invalid-by-construction incl. value/type mismatches of every shape, same-named includes, cycles through same-named files) + text mutations; independent Python re-check of the soundness facts on every accepted "
              "tree. Assumes ASCII names and the grammar's naming guarantees (both shown necessary by a refutation theorem); parser termination belongs to "
              "C10. Java syntax only, Dart bracket/quote balance only, Go full type-check against the runtime. Unrepaired generator defects listed in known_findings.json.",
         technique="Coq totality/termination proofs + exact-diagnostic trace validation of the validation pass + judge-checked correspondence + seeded "
